@@ -27,6 +27,11 @@ func (s *Store) Put(id packet.ID, future *Future) {
 	s.mutex.Lock()
 	defer s.mutex.Unlock()
 
+	// cancel a displaced future as it can no longer be completed
+	if existing, ok := s.store[id]; ok && existing != future {
+		existing.Cancel(nil)
+	}
+
 	// set future
 	s.store[id] = future
 }
